@@ -24,9 +24,12 @@
       the other shape are untouched; `request_unique`, `status_unique`, `request_not_status`: exactly one reading;
     * `status_value` (100·d0 + 10·d1 + d2), `request_iff`, `reply_of_status`; `reject_after_version` (a fourth token);
     * `sound_resumed`, `resumed_eq_oneshot`: the same after any number of MoreBytes / append / call-again rounds.
-  Observed (true of the Go code): a status line with code `000` is reported with Status 0, so `Request()` answers
-  true for it; request tokens are ANY bytes other than SP / HT / CR / LF and the request's version is not compared
-  with `SIP/2.0`.
+  `request_iff`, `reply_iff`: `Request()` is true exactly for the request lines and false exactly for the status lines,
+  code `000` included. This was a genuine defect found by the sceptical review of these theorems (F22): `Request()` was
+  `Status == 0`, so the accepted status line `SIP/2.0 000 x` was reported as a request (wrong `Method()`, a signature
+  for a reply); repaired in the library (07883de: a reply always carries its status-code text), the model follows.
+  Observed (true of the Go code): request tokens are ANY bytes other than SP / HT / CR / LF and the request's version
+  is not compared with `SIP/2.0`.
   Model tied to parse_fline.go by the correspondence check.
 -/
 import Sipsp.Proofs.FLineSpec
@@ -178,5 +181,10 @@ theorem sound_resumed : type_of% @Sipsp.parseFLine_sound_resumed := @Sipsp.parse
 
 /-- resuming gives what a single call on the whole buffer gives (from the L2 theorem `parseFLine_resume`) -/
 theorem resumed_eq_oneshot : type_of% @Sipsp.fs_resumed_eq := @Sipsp.fs_resumed_eq
+
+/-! ### request vs reply after the repair of Request() (proved in `Sipsp.Proofs.FLineSound`) -/
+
+/-- … and `Request()` is false exactly for the status lines, whatever their code (000 included) -/
+theorem reply_iff : type_of% @Sipsp.fline_reply_iff := @Sipsp.fline_reply_iff
 
 end Sipsp.C08
